@@ -42,6 +42,9 @@ def gen_eobj(rng):
         d["n"] = rng.choice((0, 1, 2, 3, -1, 2.5, 10))
     if rng.random() < 0.9:
         d["s"] = rng.choice(WORDS)
+    if rng.random() < 0.08:
+        # member names that some functions use themselves for what they build (entries, indexed, fold, zip)
+        d[rng.choice(("key", "value", "index", "so_far", ".0", "0"))] = rng.choice((0, "v", None, [1]))
     return d
 
 
@@ -279,7 +282,7 @@ class Gen:
         generic = kind  # result kind wanted
         # flow (any kind)
         add("?", lambda g, sc, d: C("?", g("bool"), g(kind), g(kind)))
-        add("default", lambda g, sc, d: C("default", *[g(kind) for _ in range(r.choice((1, 2, 3)))]))
+        add("default", lambda g, sc, d: C("default", *[g(kind) for _ in range(r.choice((1, 2, 3, 5)))]))
         add("|", lambda g, sc, d: self.pipe(kind, sc, d))
         add("set", lambda g, sc, d: self.mk_set(kind, sc, d))
         add("define", lambda g, sc, d: self.mk_define(kind, sc, d))
@@ -292,7 +295,7 @@ class Gen:
         add("as_" + self.as_name(kind), lambda g, sc, d: C("as_" + self.as_name(kind), g(kind if r.random() < 0.7 else "any")))
         add(":", lambda g, sc, d: self.mk_varfn(kind, sc, d))
         if kind in ("num", "int", "any"):
-            add("+", lambda g, sc, d: C(r.choice(("+", "*")), *[g("num") for _ in range(r.choice((2, 2, 3)))]))
+            add("+", lambda g, sc, d: C(r.choice(("+", "*")), *[g("num") for _ in range(r.choice((2, 2, 3, 4, 6)))]))
             add("-", lambda g, sc, d: C("-", *[g("num") for _ in range(r.choice((1, 2)))]))
             add("/", lambda g, sc, d: C(r.choice(("/", "%")), g("num"), g("num")))
             add("abs", lambda g, sc, d: C(r.choice(("abs", "round", "ceil", "floor")), g("num")))
@@ -305,7 +308,7 @@ class Gen:
                                                            C("concat", C("format_time", g("epoch"), ("lit", "%F %T")), ("lit", r.choice((" +0000", " +0530", " -0800")))),
                                                            ("lit", "%F %T %z")))
         if kind in ("str", "any"):
-            add("concat", lambda g, sc, d: C("concat", *[g("str") for _ in range(r.choice((2, 2, 3)))]))
+            add("concat", lambda g, sc, d: C("concat", *[g("str") for _ in range(r.choice((2, 2, 3, 4, 7)))]))
             add("head", lambda g, sc, d: C(r.choice(("head", "tail")), g("str"), g("int")))
             add("take", lambda g, sc, d: C(r.choice(("take", "take_last")), g("str"), g("int")))
             add("sub", lambda g, sc, d: C("sub", g("str"), g("int"), g("int")))
@@ -322,7 +325,7 @@ class Gen:
             add('"abs"', lambda g, sc, d: C(r.choice(('"abs"', '"round"', '"||"')), g("nas")))
         if kind in ("bool", "any"):
             add("=", lambda g, sc, d: C(r.choice(("=", "!=", "<", "<=", ">", ">=")), *self.two_same(g)))
-            add("and", lambda g, sc, d: C(r.choice(("and", "or")), *[g("bool") for _ in range(r.choice((2, 2, 3)))]))
+            add("and", lambda g, sc, d: C(r.choice(("and", "or")), *[g("bool") for _ in range(r.choice((2, 2, 3, 4, 5)))]))
             add("xor", lambda g, sc, d: C("xor", g("bool"), g("bool")))
             add("not", lambda g, sc, d: C("not", g("bool")))
             add("any", lambda g, sc, d: C(r.choice(("any", "all")), g("arr:bool")))
@@ -337,7 +340,7 @@ class Gen:
             add("sort_by", lambda g, sc, d: C("sort_by", g(ak), self.body(r.choice(("num", "str", "any")), sc, ek, d)))
             add("take", lambda g, sc, d: C(r.choice(("take", "take_last")), g(ak), g("int")))
             add("sub", lambda g, sc, d: C("sub", g(ak), g("int"), g("int")))
-            add("push", lambda g, sc, d: C(r.choice(("push", "push_front")), g(ak), *[g(ek if ek != "eobj" else "obj") for _ in range(r.choice((1, 2)))]))
+            add("push", lambda g, sc, d: C(r.choice(("push", "push_front")), g(ak), *[g(ek if ek != "eobj" else "obj") for _ in range(r.choice((1, 2, 3, 5)))]))
             add("map", lambda g, sc, d: self.mk_map(ak, sc, d))
             add("flat_map", lambda g, sc, d: C("flat_map", g("arr:arr" if r.random() < 0.5 else self.arr_kind()), self.body(ak, sc, "arr:num", d)))
             if ak == "arr:num":
@@ -349,7 +352,8 @@ class Gen:
             if ak == "arr:obj":
                 add("indexed", lambda g, sc, d: C("indexed", g(self.arr_kind())))
                 add("entries", lambda g, sc, d: C("entries", g("obj")))
-                add("zip", lambda g, sc, d: C(r.choice(("zip", "cross")), *[g(self.arr_kind()) for _ in range(r.choice((2, 2, 3)))]))
+                add("zip", lambda g, sc, d: C("zip", *[g(self.arr_kind()) for _ in range(r.choice((2, 2, 3, 4)))]) if r.random() < 0.5 else
+                    C("cross", *[g(self.arr_kind()) for _ in range(r.choice((2, 2, 3)))]))
                 add('"sort_by"', lambda g, sc, d: C('"sort_by"', ("lit", [{"n": 1, "s": "10"}, {"n": 2, "s": "9"}, {"n": 3, "s": "1e1"}, {"n": 4, "s": "x"}]),
                                                     ("path", 0, (("k", "s"),))))
         if kind in ("obj", "any"):
